@@ -45,7 +45,10 @@ limitations under the License.
 ::pydjinni::LocalRef<{{ type_def.jni.name }}::JniType> {{ type_def.jni.name }}::fromCpp(JNIEnv* jniEnv, const {{ type_def.cpp.typename }}& c) { return fromCppOpt(jniEnv, c); }
 
 
-{{ type_def.jni.name }}::{{ type_def.jni.name }}() : ::pydjinni::JniInterface<{{ type_def.jni.wrapper }}, {{ type_def.jni.name }}>("{{ type_def.jni.class_descriptor }}CppProxy") {}
+{{ type_def.jni.name }}::{{ type_def.jni.name }}() : ::pydjinni::JniInterface<{{ type_def.jni.wrapper }}, {{ type_def.jni.name }}>(
+/*>- if 'cpp' in type_def.targets -*/
+"{{ type_def.jni.class_descriptor }}CppProxy"
+/*>- endif -*/) {}
 {{ type_def.jni.name }}::~{{ type_def.jni.name }}() = default;
 
 //> if 'java' in type_def.targets:
